@@ -6,11 +6,13 @@ factorization inside the call is a behaviour of the pipeline model).
 Binding: TLC enumerates histories over {mat(NC|NR), vals, gssv, destroy}; each is executed with
 random matrices, nrhs in 0..3, ldb >= n, orderings -1..3, 1..8 threads (also > n), with
 schedule perturbation, in four precisions; SluApiTrace validates every call record and
-SluPipeTrace every recorded factorization.
+SluPipeTrace every recorded factorization.  SluSolve: ?gstrs / sp_?trsv as sweeps over the supernodes by NUMBER (model: every component
+is final before a dense solve consumes it, for every well-formed structure, refuted for ill-formed ones); every real solve call of the
+histories (recorded through --wrap of the dense kernels) must make exactly the kernel calls of the sweep: which block of L, which part of B.
 """
 import sys, os, random
 sys.path.insert(0, os.path.join(os.path.dirname(os.path.abspath(__file__)), "..", "lib"))
-import common, build, apicheck
+import common, build, apicheck, solve
 
 
 def main(tier):
@@ -26,7 +28,14 @@ def main(tier):
     quick = tier == "quick"
     apicheck.run_histories(ck, ["mat", "vals", "gssv", "destroy"], 4, 80 if quick else 800, rng,
                            precs=("d", "s", "z", "c"), threads=(1, 2, 3, 4, 8, 16), nmax=24 if quick else 60, pert=30)
-    return ck.finish()
+    # the solve itself as a state machine: the sweeps of ?gstrs / sp_?trsv over the supernodes (SluSolve.tla); every real solve call of
+    # the histories above was compared with it (apicheck.judge_solves); here the machine is model-checked on all small structures
+    sens_ok = solve.check_models(ck, os.path.join(ck.dir, "solvemodel"), 4 if quick else 5)
+    rc = ck.finish()
+    if not sens_ok:
+        print("SELFTEST-FAIL: SluSolve accepts sweeps over ill-formed structures: %s" % ck.notes.get("solve_model_ill_formed_structures_rejected"))
+        return 3
+    return rc
 
 
 if __name__ == "__main__":
